@@ -58,7 +58,8 @@ func (w *faultyWriter) Write(p []byte) (int, error) {
 type c18font struct {
 	name   string
 	f      *sfnt.Font
-	sparse bool // large file explored at buffer-size boundaries only (quick tier)
+	sparse bool   // large file explored at buffer-size boundaries only (quick tier)
+	raw    []byte // readers only: these bytes instead of the font's Write output
 }
 
 type writerAPI struct {
@@ -99,7 +100,7 @@ func c18corpus(c *mon.Ctx) []c18font {
 			}
 			go_.Tables["gasp"] = []byte{0, 1, 0, 2, 0, 8, 0, 2, 0xff, 0xff, 0, 3}
 		}
-		fonts = append(fonts, c18font{fmt.Sprintf("generated-%d-%s", i, o.Kind), f, false})
+		fonts = append(fonts, c18font{fmt.Sprintf("generated-%d-%s", i, o.Kind), f, false, nil})
 	}
 	if !c.Thorough() {
 		// tables beyond 64 KiB in the quick tier as well: one large font per
@@ -112,7 +113,30 @@ func c18corpus(c *mon.Ctx) []c18font {
 			if f.CreationTime.IsZero() && f.ModificationTime.IsZero() {
 				f.ModificationTime = f.ModificationTime.AddDate(2001, 0, 0)
 			}
-			fonts = append(fonts, c18font{fmt.Sprintf("generated-large-%d-%s", i, o.Kind), f, true})
+			fonts = append(fonts, c18font{fmt.Sprintf("generated-large-%d-%s", i, o.Kind), f, true, nil})
+		}
+	}
+	// a file whose physically last table is one the reader never asks for (a
+	// signature, vendor data): cutting it short anywhere is a truncation too
+	if len(fonts) > 1 {
+		buf := &bytes.Buffer{}
+		if pv, _ := mon.Try(func() { fonts[1].f.Write(buf) }); pv == nil {
+			tail := make([]byte, 41)
+			for i := range tail {
+				tail[i] = byte(0xA0 + i)
+			}
+			raw := addTable(buf.Bytes(), "zzzz", tail)
+			if wf, _ := sfntwalk.Walk(raw); wf != nil {
+				last := wf.Tables[0]
+				for _, t := range wf.Tables {
+					if t.Offset > last.Offset {
+						last = t
+					}
+				}
+				if last.Tag == "zzzz" {
+					fonts = append(fonts, c18font{"generated-1-glyf+trailing-unread-table", fonts[1].f, false, raw})
+				}
+			}
 		}
 	}
 	for _, cf := range corpusFiles(c) {
@@ -124,7 +148,7 @@ func c18corpus(c *mon.Ctx) []c18font {
 		if err != nil {
 			continue
 		}
-		fonts = append(fonts, c18font{cf.name, f, false})
+		fonts = append(fonts, c18font{cf.name, f, false, nil})
 	}
 	return fonts
 }
@@ -306,7 +330,7 @@ func runC18(c *mon.Ctx) {
 	var units []unit
 	for fi, cf := range fonts {
 		for ai, api := range c18apis {
-			if !api.ok(cf.f) {
+			if !api.ok(cf.f) || cf.raw != nil {
 				continue
 			}
 			buf := &bytes.Buffer{}
@@ -327,6 +351,9 @@ func runC18(c *mon.Ctx) {
 			continue
 		}
 		ref := buf.Bytes()
+		if cf.raw != nil {
+			ref = cf.raw
+		}
 		ks := faultPoints(ref, 24000, cf.sparse)
 		for v := 0; v < 4; v++ {
 			for i := 0; i < len(ks); i += block {
